@@ -356,6 +356,15 @@ func waiting(k int) {
 	dataBefore := false
 	var dataFrames []emitted
 	resolvedAt := time.Duration(-1)
+	// hands-off mode (every other scenario): the monitor does not ask the neighbour cache while
+	// the operation waits - each lookup registers a waker of its own on the pending entry, so a
+	// polling monitor hides whatever depends on the waiters of an entry. The harness knows when
+	// the answer was injected; that is when resolution can have completed.
+	handsOff := k%2 == 0
+	var answerInjected int32
+	if handsOff {
+		run.Count("waits_observed_without_cache_lookups", 1)
+	}
 	for step := 0; step < 5200 && !bad; step++ {
 		time.Sleep(time.Millisecond)
 		if step%50 == 49 {
@@ -378,6 +387,7 @@ func waiting(k int) {
 						answered = true
 						go func() {
 							time.Sleep(time.Duration(lateMs) * time.Millisecond)
+							atomic.StoreInt32(&answerInjected, 1)
 							x.arp(2, nhm, ip4b(nh), smac, ip4b(wire.AddrA4))
 						}()
 					}
@@ -386,7 +396,12 @@ func waiting(k int) {
 			}
 			// any non-ARP frame toward the next hop
 			if o.proto == uint16(ipv4.ProtocolNumber) {
-				if resolvedAt < 0 {
+				if handsOff {
+					if atomic.LoadInt32(&answerInjected) == 0 {
+						dataBefore = true
+						trace = append(trace, fmt.Sprintf("IPv4 frame at %v before the neighbour had answered", time.Since(start)))
+					}
+				} else if resolvedAt < 0 {
 					if la, err := x.lookup(nh); err != nil || !bytes.Equal([]byte(la), nhm[:]) {
 						dataBefore = true
 						trace = append(trace, fmt.Sprintf("IPv4 frame at %v before resolution", time.Since(start)))
@@ -395,7 +410,11 @@ func waiting(k int) {
 				dataFrames = append(dataFrames, o)
 			}
 		}
-		if resolvedAt < 0 {
+		if handsOff {
+			if resolvedAt < 0 && atomic.LoadInt32(&answerInjected) != 0 {
+				resolvedAt = time.Since(start)
+			}
+		} else if resolvedAt < 0 {
 			if la, err := x.lookup(nh); err == nil && bytes.Equal([]byte(la), nhm[:]) {
 				resolvedAt = time.Since(start)
 			} else if err != nil {
